@@ -5,5 +5,8 @@ cd "$(dirname "$0")" || exit 1
 /venv/bin/python -c 'import hypothesis' 2>/dev/null || /venv/bin/pip install --no-index --find-links /opt/veriftools/wheels hypothesis || exit 1
 /venv/bin/python -c 'import hypothesis, ply; print("hypothesis", hypothesis.__version__)' || exit 1
 gcc --version >/dev/null || exit 1
+# atheris (coverage-guided fuzzing for C09) goes beside the framework, not into /venv
+[ -d .deps/atheris ] || /venv/bin/pip install -q --no-index --find-links /opt/veriftools/wheels --target .deps atheris || exit 1
+PYTHONPATH=.deps /venv/bin/python -c 'import atheris' || exit 1
 mkdir -p evidence replays
 exit 0
